@@ -32,9 +32,13 @@ func (h *Handler) findHuntByIP(ip netip.Addr) (packet.Addr, bool) {
 //  2. start spoof goroutine to which will continuously spoof the client ARP table
 //
 func (h *Handler) StartHunt(addr packet.Addr) (packet.HuntStage, error) {
-	if addr.MAC == nil || !addr.IP.Is4() {
+	if len(addr.MAC) != packet.EthAddrLen { // nil, empty or short: there is no station to send to
+		return packet.StageNoChange, packet.ErrInvalidMAC
+	}
+	if !addr.IP.Is4() {
 		return packet.StageNoChange, packet.ErrInvalidIP
 	}
+	addr.MAC = packet.CopyMAC(addr.MAC) // the hunt list and the loop outlive the caller's buffer
 
 	h.arpMutex.Lock()
 	defer h.arpMutex.Unlock()
